@@ -1390,9 +1390,11 @@ void value_t::in_place_cast(type_t cast_type)
     case DATETIME:
       set_datetime(parse_datetime(as_string()));
       return;
-    case MASK:
-      set_mask(as_string());
+    case MASK: {
+      const string pattern(as_string()); // set_mask() resets the storage that as_string() refers to
+      set_mask(pattern);
       return;
+    }
     default:
       break;
     }
